@@ -2,7 +2,7 @@
 import warnings
 import numpy as np
 from fractions import Fraction
-from common import F, rs, vs, ms, dyadic, close, call
+from common import F, rs, vs, ms, dyadic, close, call, as_given
 from systems import gen_K, gen_baseline, apply_K
 from fitlib import K_text
 import exactqp
@@ -13,7 +13,34 @@ def drain():
     return _verif.drain()
 
 
-def gen_system(rng, decimal=False):
+def rep_name(x):
+    """short description of the representation an argument was handed in (recorded with the case)"""
+    if x is None or isinstance(x, (int, float)):
+        return type(x).__name__
+    if isinstance(x, list):
+        flat = np.asarray(x, dtype=object).ravel().tolist()
+        return "list[%s]" % ("int" if flat and all(isinstance(v, int) for v in flat) else "float")
+    return "%s%s" % (x.dtype, "" if x.flags["C_CONTIGUOUS"] else (":F" if x.flags["F_CONTIGUOUS"] else ":strided"))
+
+
+def give(rng, x, R, tag):
+    """the same values as a caller may legitimately write them: as_given (integer dtype when whole, Fortran order, strided view,
+    list) and, on top, a python list of ints for whole data, or a plain number when all entries of a vector are equal
+    (documented for bounds and baseline: `ensure_value` accepts numbers)"""
+    if x is None:
+        return None
+    y = as_given(rng, x, R, tag)
+    u = rng.random()
+    if isinstance(y, np.ndarray) and y.dtype.kind == "i" and u < 0.25:
+        R.count("given:%s:+intlist" % tag)
+        return y.tolist()
+    if tag in ("lb", "ub", "baseline") and isinstance(y, np.ndarray) and y.ndim == 1 and np.all(y == y.flat[0]) and 0.25 <= u < 0.5:
+        R.count("given:%s:+number" % tag)
+        return y.flat[0].item()
+    return y
+
+
+def gen_system(rng, decimal=False, whole=False):
     nf = int(rng.integers(2, 5)); nd = int(rng.integers(1, 4)); ns = nf + nd
     for _ in range(200):
         A = rng.integers(0, 5, size=(nf, ns)).astype(float)
@@ -33,8 +60,20 @@ def gen_system(rng, decimal=False):
     if decimal:
         ub = np.round(lb + rng.uniform(0.5, 3, size=ns), 1)
         kk, K, bk, base = "none", None, "zero", np.array([0.0])
+    if whole:
+        # whole-number data throughout (A is whole already): a caller may write such bounds / baseline / adaptation as integers.
+        # The extents of the solution polytope are still fractional (basic solutions of integer systems are rationals).
+        lb = np.zeros(ns) if lbk == "zero" else rng.integers(1, 3, size=ns).astype(float)
+        if rng.random() < 0.3:
+            ub = lb + float(rng.integers(2, 7))             # equal widths (a single number when lb is constant)
+        else:
+            ub = lb + rng.integers(2, 7, size=ns).astype(float)
+        if K is not None:
+            K = rng.integers(1, 4, size=K.shape).astype(float)
+        if bk != "zero":
+            base = rng.integers(0, 4, size=base.shape).astype(float)
     Ap, bp = apply_K(A, K, base)
-    return dict(decimal=decimal, nf=nf, ns=ns, nd=nd, A=A, K=K, K_kind=kk, baseline=base, baseline_kind=bk, lb=lb, ub=ub, lb_kind=lbk, Ap=Ap, bp=bp)
+    return dict(decimal=decimal, whole=whole, nf=nf, ns=ns, nd=nd, A=A, K=K, K_kind=kk, baseline=base, baseline_kind=bk, lb=lb, ub=ub, lb_kind=lbk, Ap=Ap, bp=bp)
 
 
 def gen_x(rng, S, kind):
@@ -55,6 +94,24 @@ def gen_x(rng, S, kind):
         m[rng.integers(ns)] = True
         return np.where(m, np.where(rng.random(ns) < 0.5, lb, ub), x)
     raise ValueError(kind)
+
+
+def gen_outside_near(rng, S):
+    """a target OUTSIDE but near the gamut whose best fit lies in the relative interior of a facet (not at a vertex): a point of
+    the facet with normal u (u orthogonal to nf-1 columns of A', generalised cross product; those sources strictly inside their
+    bounds, every other source at the bound that maximises u.A'x) moved outwards along u by a distance in (0.5, 1]. It is outside
+    because u.y <= u.p for every gamut point y; float rounding of u only tilts the direction."""
+    Ap, bp, lb, ub, nf, ns = S["Ap"], S["bp"], S["lb"], S["ub"], S["nf"], S["ns"]
+    free = sorted(rng.choice(ns, size=nf - 1, replace=False).tolist())
+    M = Ap[:, free]
+    u = np.array([(-1.0) ** i * (np.linalg.det(np.delete(M, i, axis=0)) if nf > 2 else float(M[1 - i, 0])) for i in range(nf)])
+    if rng.random() < 0.5:
+        u = -u
+    u = u / 2.0 ** np.ceil(np.log2(np.linalg.norm(u)))            # |u| in (0.5, 1], scaling by a power of two is exact
+    proj = u @ Ap
+    x = np.where(proj > 0, ub, lb)
+    x[free] = (lb + dyadic(rng, 0.25, 0.75, 3, size=ns) * (ub - lb))[free]
+    return Ap @ x + bp + u
 
 
 def dual_hint(Ap, bprime, lbF, ubF, j, upper):
@@ -101,18 +158,21 @@ def run(R):
     nsys = 14 if R.tier == "quick" else 300
     R.rule = ("under-determined systems 2-4 receptors + 1-3 surplus sources, small-integer A (boundary targets exactly "
               "representable), lb zero/positive, finite ub, K none/scalar/vector, baseline; targets strictly inside, black, "
-              "white, one saturated source, half of one source, faces, and outside; spaced solutions n in 2..10. The exact model "
+              "white, one saturated source, half of one source, faces, far outside, and outside within distance 1 of a facet (best fit inside the facet); spaced solutions n in 2..10. One third of the systems "
+              "has whole-number data throughout (bounds, baseline, K) and every argument reaches dreye in a randomly chosen legitimate "
+              "representation (integer dtype / list of ints when whole, a plain number for constant bounds, Fortran order, strided view, "
+              "list; the model receives the values); the in-gamut targets of a system are also asked as one 2-d batch. The exact model "
               "(enumeration of basic solutions in Q) is compared with dreye's ends; the model's ends are certified extremal by "
               "LP-dual multipliers checked by the verified linLower (theorems lower/upper_end_of_cert) and attained (range_ends). "
               "Non-trivial: at least two accepted candidates or a boundary target.")
-    kinds = ["inside", "inside", "black", "white", "one_saturated", "half_of_one", "face", "outside"]
+    kinds = ["inside", "inside", "black", "white", "one_saturated", "half_of_one", "face", "outside", "outside_near"]
     jobs = []
     for si in range(nsys):
         k = "s%d" % si
         if not R.want(k):
             continue
         rng = R.rng(1, si)
-        S = gen_system(rng, decimal=(si % 3 == 2))
+        S = gen_system(rng, decimal=(si % 3 == 2), whole=(si % 3 == 1))
         nf, ns = S["nf"], S["ns"]
         lbF = [F(v) for v in S["lb"]]; ubF = [F(v) for v in S["ub"]]
         ApF = [[F(v) for v in r] for r in S["Ap"]]; bpF = [F(v) for v in S["bp"]]
@@ -122,31 +182,53 @@ def run(R):
                 x = gen_x(rng, S, "inside")
                 b = S["Ap"] @ x + S["bp"]
                 b[rng.integers(nf)] += float(np.sum(np.abs(S["Ap"]) * (S["ub"] - S["lb"])))   # beyond the extent
+            elif kind == "outside_near":
+                b = gen_outside_near(R.rng(4, si), S)
             else:
                 x = gen_x(rng, S, kind)
                 b = S["Ap"] @ x + S["bp"]
             bprime = [F(v) - b0 for v, b0 in zip(b, bpF)]
-            if S["decimal"] and kind != "outside":
+            if S["decimal"] and not kind.startswith("outside"):
                 # the model works on the exact target A x (not representable); dreye gets its float rounding
                 bprime = [sum(a * F(xv) for a, xv in zip(row, x)) for row in ApF]
                 b = np.array([float(v + b0) for v, b0 in zip(bprime, bpF)])
-            c = dict(k="%s_%d" % (k, ti), kind=kind, decimal=S["decimal"], nf=nf, ns=ns, A=S["A"], K=S["K"], K_kind=S["K_kind"], baseline=S["baseline"],
+            c = dict(k="%s_%d" % (k, ti), kind=kind, decimal=S["decimal"], whole=S["whole"], nf=nf, ns=ns, A=S["A"], K=S["K"], K_kind=S["K_kind"], baseline=S["baseline"],
                      lb=S["lb"], ub=S["ub"], b=b, n_spaced=nsp)
             if not R.want(c["k"]) and not R.want(k):
                 continue
+            # representation of the arguments (implementation side only; the model gets the values): own random stream per case
+            rr = R.rng(2, si, ti)
+            g = dict(b=give(rr, b.copy(), R, "b"), A=give(rr, S["A"], R, "A"), lb=give(rr, S["lb"], R, "lb"), ub=give(rr, S["ub"], R, "ub"),
+                     K=give(rr, S["K"], R, "K"), baseline=give(rr, S["baseline"], R, "baseline"))
+            c["given"] = {a: rep_name(v) for a, v in g.items()}
+            if any("int" in v for a, v in c["given"].items() if a in ("lb", "ub")):
+                R.count("bounds-written-as-integers")
             drain()
             with warnings.catch_warnings():
                 warnings.simplefilter("ignore")
-                st, out = call(range_of_solutions, b.copy(), S["A"], S["lb"], S["ub"], K=S["K"], baseline=S["baseline"], error="raise", n=nsp)
+                st, out = call(range_of_solutions, g["b"], g["A"], g["lb"], g["ub"], K=g["K"], baseline=g["baseline"], error="raise", n=nsp)
                 st_i, out_i = (None, None)
-                if kind == "outside":
-                    st_i, out_i = call(range_of_solutions, b.copy(), S["A"], S["lb"], S["ub"], K=S["K"], baseline=S["baseline"], error=str(rng.choice(["ignore", "warn"])))
+                if kind.startswith("outside"):
+                    st_i, out_i = call(range_of_solutions, g["b"], g["A"], g["lb"], g["ub"], K=g["K"], baseline=g["baseline"], error=str(rng.choice(["ignore", "warn"])))
             ev = [e for e in drain() if e["event"] == "range_candidates"]
             R.driver.ask("r" + c["k"], "range", ns, ms(ApF), vs(bprime), vs(lbF), vs(ubF))
-            jobs.append((c, S, kind, x if kind != "outside" else None, bprime, ApF, lbF, ubF, st, out, st_i, out_i, ev))
+            jobs.append((c, S, kind, x if not kind.startswith("outside") else None, bprime, ApF, lbF, ubF, st, out, st_i, out_i, ev))
             for key in ("kind", "K_kind"):
                 R.count("%s:%s" % (key, c[key]))
-            R.count("data:%s" % ("decimal" if S["decimal"] else "exact"))
+            R.count("data:%s" % ("decimal" if S["decimal"] else ("whole" if S["whole"] else "exact")))
+        # the same in-gamut targets handed in as ONE two-dimensional batch (rows = targets): each row is the same question
+        sysjobs = [j for j in jobs if j[1] is S and not j[2].startswith("outside") and j[8] == "ok"]
+        if len(sysjobs) >= 2:
+            rr = R.rng(2, si, 99)
+            Bm = np.array([j[0]["b"] for j in sysjobs])
+            with warnings.catch_warnings():
+                warnings.simplefilter("ignore")
+                stb, outb = call(range_of_solutions, give(rr, Bm, R, "B"), give(rr, S["A"], R, "A"), give(rr, S["lb"], R, "lb"), give(rr, S["ub"], R, "ub"),
+                                 K=give(rr, S["K"], R, "K"), baseline=give(rr, S["baseline"], R, "baseline"), error="raise")
+            drain()
+            R.count("batch-call:rows=%d" % len(sysjobs))
+            for r_, j in enumerate(sysjobs):
+                j[0]["_batch"] = (stb, (np.asarray(outb[0])[r_], np.asarray(outb[1])[r_]) if stb == "ok" else outb)
     R.driver.run()
     second = []
     for job in jobs:
@@ -177,8 +259,10 @@ def run(R):
         if model is None:
             R.case(pub, None); R.failA(pub, "model: a square system of the enumeration is singular (generator should have excluded this)"); continue
         mins, maxs, nc, na = model
-        if kind == "outside":
+        if kind.startswith("outside"):
             R.case(pub, None)
+            if na > 0:
+                R.failA(pub, "generator: a target constructed outside the gamut is reproduced by an in-bound basic solution of the exact model"); continue
             if st == "ok":
                 R.failB(dict(pub, impl=out), "an out-of-gamut target did not raise with error='raise'", sig + ":no-raise")
             elif st != "value_error":
@@ -246,6 +330,16 @@ def run(R):
             R.failB(dict(pub, impl=[Xmin, Xmax], model=[mins, maxs], candidates=ev),
                     "reported range of sources %s is not the exact extent: min=%s max=%s, exact min=%s max=%s" % (bad, Xmin.tolist(), Xmax.tolist(), [float(v) for v in mins], [float(v) for v in maxs]),
                     sig + ":wrong-extent")
+        if "_batch" in c:
+            stb, ob = c["_batch"]
+            if stb != "ok":
+                R.failB(dict(pub, impl_error=ob), "a batch of in-gamut targets (each accepted on its own) raised %s: %s" % (stb, ob), sig + ":batch-raises:" + stb)
+            else:
+                badb = [j for j in range(ns) if not close(ob[0][j], mins[j], rngw[j], RT) or not close(ob[1][j], maxs[j], rngw[j], RT)]
+                if badb:
+                    R.failB(dict(pub, impl_batch_row=[ob[0], ob[1]], model=[mins, maxs]),
+                            "batch call: reported range of sources %s is not the exact extent: min=%s max=%s, exact min=%s max=%s" % (badb, ob[0].tolist(), ob[1].tolist(), [float(v) for v in mins], [float(v) for v in maxs]),
+                            sig + ":wrong-extent:batch")
         # the generating intensities lie between the ends
         if x is not None and (np.any(x < Xmin - 1e-9 * rngw) or np.any(x > Xmax + 1e-9 * rngw)):
             R.failB(dict(pub, impl=[Xmin, Xmax], solution=x), "a solution reproducing the target lies outside the reported range", sig + ":solution-outside-range")
